@@ -72,7 +72,7 @@ def upload(n, crc, sized, how, fault=None):
     tag = "C13/upload/%s" % (fault[0] if fault else "clean")
     got = None
     try:
-        if how.startswith("chunks:"):          # buffered stream read in pieces: "chunks:<buffering>:<chunk>"
+        if how.startswith("chunks:") or how.startswith("part:"):   # buffered stream read in pieces: "chunks:<buffering>:<chunk>"
             buffering = int(how.split(":")[1])
         else:
             buffering = 1024 if how in ("buffered", "exact") else 0
@@ -98,6 +98,12 @@ def upload(n, crc, sized, how, fault=None):
                         break
                     parts.extend(sx.items(d))
                 got = sx.mkbytes(parts)
+            elif how.startswith("part:"):
+                # a first read of k bytes, then "the rest" with read() (raw: readall; buffered: read_all)
+                k = int(how.split(":")[2])
+                first = fp.read(k)
+                rest = fp.read()
+                got = sx.mkbytes(sx.items(first) + sx.items(rest))
             elif how.startswith("chunks:"):
                 chunk = int(how.split(":")[2])
                 parts = []
@@ -238,6 +244,10 @@ def jobs(tier):
     for n, how in chunked:
         for crc in (1, 0):
             out.append(dict(func="upload", params=dict(n=n, crc=crc, sized=1, how=how), weight=n))
+    # a first partial read, then read() for the rest (raw and buffered)
+    for n, how in ((100, "part:1024:10"), (100, "part:0:7"), (30, "part:0:7"), (50, "part:16:3"), (22, "part:0:21"), (22, "part:1024:22")):
+        for sized in (1, 0):
+            out.append(dict(func="upload", params=dict(n=n, crc=1, sized=sized, how=how), weight=n))
     if q:
         out.append(dict(func="upload", params=dict(n=889, crc=1, sized=1, how="buffered"), weight=900))
         out.append(dict(func="upload", params=dict(n=890, crc=1, sized=1, how="buffered"), weight=900))
